@@ -475,13 +475,19 @@ def run_shapes(rng, rec):
                     import mpmath as mp
 
                     mp.mp.dps = 40
-                    ref = np.array([float(A * mp.exp(-mp.log(2) * (mp.log(mp.mpf(float(v))) / mp.mpf(b)) ** 2)) if v > 0 else 0.0 for v in th])
+                    # theta = 1 + 2 b u is formed in 40 digits as well (in float64 it loses eps / |b u| for tiny b)
+                    thm = [1 + 2 * mp.mpf(b) * mp.mpf(float(uu)) for uu in u]
+                    ref = np.array([float(A * mp.exp(-mp.log(2) * (mp.log(v) / mp.mpf(b)) ** 2)) if v > 0 else 0.0 for v in thm])
                 # log(1 + 2 b u): conditioning 1 / (theta |log theta|) * ... ; continuity: |f_b - f_0| <= C |b|
                 cond_ = 1 + 2 * ln2 * np.abs(np.log(np.where(th > 0, th, 1.0))) / (b * b) * (1.0 / np.maximum(np.abs(np.log(np.where(th > 0, th, 1.0))), 1e-300)) * (np.abs(2 * b * u) / np.where(th > 0, th, 1.0) + 1)
                 tol = 64 * I.EPS * np.minimum(cond_, 1e12) * (np.abs(ref) + 1e-6 * A) + 1e-300
-                if abs(b) <= 1e-6:
-                    # either the exact skewed formula or (statement: continuous as b -> 0) within C |b| of the Gaussian
-                    tol = np.maximum(tol, 50 * abs(b) * A + 1e-7 * A * (abs(b) <= 1.001e-8))
+                if abs(b) <= 1.001e-8:
+                    # below the switch the statement demands continuity in b -> 0: within C |b| of the Gaussian (the
+                    # conditioning of the literal log(1 + 2bu)/b formula, eps/|b|, is NOT a licence here)
+                    tol = 50 * abs(b) * A + 1e-7 * A + 64 * I.EPS * (1 + (2 * u) ** 2 * 4) * np.abs(ref)
+                elif abs(b) <= 1e-6:
+                    # just above it either the exact skewed formula (literal evaluation: relative error ~ eps |u| / |b|) ...
+                    tol = np.maximum(64 * I.EPS * (1 + 4 * ln2 * np.abs(u) / (np.where(th > 0, th, 1.0) * abs(b))) * (np.abs(ref) + 1e-6 * A), 50 * abs(b) * A) + 1e-300
             if not inverted and scale == 1.0:
                 # structural identities at the probe points
                 at = lambda p: col[int(np.argmin(np.abs(axis - p)))] if np.abs(axis - p).min() == 0 else None  # noqa: E731
